@@ -84,7 +84,10 @@ structure TpmOK (env : Prog.Env) (o : AttObj) (h : Bytes) (res : Result) : Prop 
     -- sig is a signature by the AIK certificate over certInfo
     ci.encoded = some ciEnc ∧ CertSigOK env der (getAlgorithm o.stmt) ciEnc (getSignature o.stmt) ∧
     -- AIK certificate requirements (§8.3.1)
-    c.version = 3 ∧ env.answer (.hardwareDetailsOK der) = .bool true ∧ [2, 23, 133, 8, 3] ∈ c.unknownEKUs ∧ c.isCA = false ∧
+    c.version = 3 ∧
+    -- the SAN carries a directory name with a registered manufacturer, a model and a version (characterised by `C17.hardwareDetails_iff`)
+    (∃ exts details, env.answer (.sanView der) = .san exts ∧ Tpm.detailsFromSan exts = some details) ∧
+    [2, 23, 133, 8, 3] ∈ c.unknownEKUs ∧ c.isCA = false ∧
     res = ⟨"AttCA", der :: rest.map (·.1)⟩
 
 /-! android-key -/
